@@ -90,7 +90,7 @@ def normTs (sec : Int) (ns : Int) : Int × Nat :=
   let n := ns % 1000000000
   (s, n.toNat)
 
-def parseInt (s : String) : Option Int :=
+def parseIntW (s : String) : Option Int :=
   if s.startsWith "-" then (dropStr 1 s).toNat?.map (fun n => -(n : Int)) else s.toNat?.map (fun n => (n : Int))
 
 def WireSt.addBlock (w : WireSt) (name : String) (c : BlockContent) (store : Bool) : WireSt :=
@@ -124,7 +124,7 @@ def wireStep (w : WireSt) (toks : List String) : WireSt × String :=
     match (field "parent" rest).bind s.hashOf, (field "qc" rest).bind (s.qcs.lookup ·), natField "view" rest, natField "proposer" rest,
           natField "cmds" rest, (field "ts" rest).map (splitChar '.') with
     | some ph, some qc, some v, some p, some nc, some [sec, ns] =>
-      match parseInt sec, parseInt ns with
+      match parseIntW sec, parseIntW ns with
       | some sec, some ns =>
         let cmds := (List.range nc).map fun i => s!"{i % 3 + 1}/{i}/{name}.{i}"
         (w.addBlock name ⟨ph, p, v, cmds, qc, normTs sec ns⟩ true, "ok")
